@@ -6,6 +6,7 @@ import (
 	"fmt"
 	"sort"
 	"strings"
+	"sync"
 	"testing"
 
 	"github.com/scigolib/hdf5/internal/verif/vkit"
@@ -354,6 +355,102 @@ func TestVerif_C04(t *testing.T) {
 			}
 			r.Outcome("ok")
 		})
+	}
+	// variable-length family: data that lives in global heap collections, which are written
+	// when a collection fills up or at Close. Every sequence up to the depth over two
+	// variable-length datasets (short elements, an element larger than a default collection,
+	// 2000-byte elements), a fixed-size dataset and a group; the files after Close of the
+	// sequence and of its parent prefix are compared for every object not aimed at.
+	{
+		enabled := func(hist []vfOp) []vfOp {
+			has := map[string]bool{}
+			for _, o := range hist {
+				if o.Op == "mkds" || o.Op == "mkgroup" {
+					has[o.Path] = true
+				}
+			}
+			var out []vfOp
+			for _, v := range []string{"/v", "/v2"} {
+				if !has[v] {
+					out = append(out, vfOp{Op: "mkds", Path: v, Type: "vstr", Dims: []uint64{2}})
+				} else {
+					out = append(out, vfOp{Op: "write", Path: v, Pat: 1}, vfOp{Op: "write", Path: v, Pat: 2}, vfOp{Op: "write", Path: v, Pat: 3})
+				}
+			}
+			if !has["/y"] {
+				out = append(out, vfOp{Op: "mkds", Path: "/y", Type: "f64", Dims: []uint64{4}})
+			} else {
+				out = append(out, vfOp{Op: "write", Path: "/y", Pat: 2})
+			}
+			if !has["/g"] {
+				out = append(out, vfOp{Op: "mkgroup", Path: "/g"})
+			} else {
+				out = append(out, vfOp{Op: "attr", Path: "/g", Name: "a", Value: "s40"})
+			}
+			return out
+		}
+		vd := 4
+		if r.Thorough() {
+			vd = 5
+		}
+		var level [][]vfOp
+		level = append(level, nil)
+		closed := map[string]*vfExec{"": vfRun(dir, nil, nil, true)}
+		var cmu sync.Mutex
+		for d := 1; d <= vd; d++ {
+			var next [][]vfOp
+			for _, h := range level {
+				for _, o := range enabled(h) {
+					next = append(next, append(append([]vfOp{}, h...), o))
+				}
+			}
+			vkit.ParallelFor(len(next), func(i int) {
+				if r.Expired() {
+					r.Cap("time budget reached in the variable-length family")
+					return
+				}
+				h := next[i]
+				cur := vfRun(dir, nil, h, true)
+				r.Transitions(1)
+				cmu.Lock()
+				closed[vfOpsString(h)] = cur
+				parent := closed[vfOpsString(h[:len(h)-1])]
+				cmu.Unlock()
+				op := h[len(h)-1]
+				r.Case("vlen: " + vfOpsString(h))
+				detail := map[string]any{"family": "variable-length", "ops": h, "history": vfOpsString(h)}
+				if parent == nil || parent.Closed == nil {
+					return
+				}
+				opClass := op.Op
+				if op.Op == "write" {
+					opClass = fmt.Sprintf("write-p%d", op.Pat)
+				}
+				if cur.Closed == nil {
+					detail["open_error"] = fmt.Sprint(cur.ClosedErr)
+					r.Fail(fmt.Sprintf("vlen/%s(%s)/file-unopenable", opClass, op.Path), detail)
+					return
+				}
+				touched := vfTouched(op, parent.Closed)
+				for p, ob := range parent.Closed.Objs {
+					if touched[p] {
+						continue
+					}
+					nb := cur.Closed.Objs[p]
+					if nb == nil || nb.Content() != ob.Content() {
+						detail["victim"] = p
+						detail["before"], detail["after"] = ob.Content(), ""
+						if nb != nil {
+							detail["after"] = nb.Content()
+						}
+						r.Fail(fmt.Sprintf("vlen/%s(%s)/other-object-changed(%s)", opClass, op.Path, p), detail)
+						return
+					}
+				}
+				r.Outcome("vlen-ok")
+			})
+			level = next
+		}
 	}
 	r.States(int64(len(states)))
 	r.Assume("the dump compares only what the read API reports (Info, Read, ReadStrings, ReadCompound, Attributes, Children)")
